@@ -66,6 +66,10 @@ type dDoc struct {
 	// Unenc: the primary resource carries a meta value no JSON can hold (an infinite number): the
 	// resource cannot be encoded.  Whatever the library makes of that, the output is well-formed.
 	Unenc bool `json:"unenc"`
+	// Links: the document carries a link of its handler's own next to the self link (1: with meta
+	// information; 2: with meta information no JSON can hold - a refusal is an outcome then, a
+	// document without its self link is not)
+	Links int `json:"links"`
 }
 
 type dRelObj struct {
@@ -140,6 +144,9 @@ type dVariant struct {
 	// Busy: while the judged calls run, other goroutines marshal documents of their own (their own
 	// schema, resources and URL): callers that share nothing do not disturb each other
 	Busy bool `json:"busy"`
+	// OddRoute: a collection is answered under the URL of one resource (and one resource under the URL
+	// of a collection): the URL is the caller's, whatever it says
+	OddRoute bool `json:"oddroute"`
 }
 
 type dCase struct {
@@ -336,7 +343,12 @@ func testErrors(n int) []jsonapi.Error {
 	var out []jsonapi.Error
 	for i := 0; i < n; i++ {
 		e := jsonapi.NewError()
-		switch i % 7 {
+		switch i % 9 {
+		case 7: // members that say the same thing twice: each one is a member of its own
+			e.Status, e.Title, e.Detail = "400", "Invalid request", "Invalid request"
+		case 8:
+			e.ID, e.Code, e.Status, e.Title, e.Detail = "404", "404", "404", "404", "404"
+			e.Source["pointer"], e.Meta["pointer"], e.Links["about"] = "/data", "/data", "/data"
 		case 4: // the library's own errors, as a handler passes them on (one has an empty source pointer)
 			e = jsonapi.NewErrUnknownFieldInBody("t1", "zz")
 		case 5:
@@ -449,6 +461,12 @@ func (w *docWorld) build(d dDoc) (*jsonapi.Document, *jsonapi.URL, []jsonapi.Res
 		}
 	}
 	doc.Included = mk(d.Included)
+	switch d.Links {
+	case 1:
+		doc.Links = map[string]jsonapi.Link{"about": {HRef: "https://x.org/about?a=1&b=2", Meta: map[string]any{"k": 1, "s": "<&>"}}, "plain": {HRef: "/p"}}
+	case 2:
+		doc.Links = map[string]jsonapi.Link{"about": {HRef: "/about", Meta: map[string]any{"bad": math.NaN()}}}
+	}
 	if mc := metaClasses[w.v.Meta%len(metaClasses)]; mc != "" {
 		m := map[string]any{}
 		dec := json.NewDecoder(strings.NewReader(mc))
@@ -456,7 +474,7 @@ func (w *docWorld) build(d dDoc) (*jsonapi.Document, *jsonapi.URL, []jsonapi.Res
 		doc.Meta = m
 	}
 	raw := "/t1"
-	if d.Kind == "one" || d.Kind == "ident" {
+	if (d.Kind == "one" || d.Kind == "ident") != w.v.OddRoute {
 		raw = "/t1/x"
 		if id := w.v.id("x"); !strings.Contains(id, "/") {
 			raw = "/t1/" + neturl.PathEscape(id) // the id as the variant spells it: the path may need escaping
@@ -798,6 +816,8 @@ func snapshot(live []jsonapi.Resource, url *jsonapi.URL) string {
 		fmt.Fprintf(&b, "F[%s]=%v;", t, sortedIDs(url.Params.Fields[t]))
 	}
 	fmt.Fprintf(&b, "S=%v;P=%v;L=%q;I=%d;", url.Params.SortingRules, url.Params.Page, url.Params.FilterLabel, len(url.Params.Include))
+	// what the URL says about the request itself
+	fmt.Fprintf(&b, "U=%q,%q,%v,%q,%q,%q,%+v,%+v;", url.Fragments, url.Route, url.IsCol, url.ResType, url.ResID, url.RelKind, url.Rel, url.BelongsToFilter)
 	// the filter, value lists in the order the caller gave them (nothing in the property lets them move)
 	var walk func(f *jsonapi.Filter)
 	walk = func(f *jsonapi.Filter) {
@@ -828,7 +848,14 @@ func snapshotDoc(doc *jsonapi.Document) string {
 		ids = append(ids, r.GetType().Name+"/"+id)
 	}
 	sort.Strings(ids)
-	fmt.Fprintf(&b, "D:inc=%q;pre=%q;errs=%d;links=%d;meta=%d;", ids, doc.PrePath, len(doc.Errors), len(doc.Links), len(doc.Meta))
+	// (the links the handler put there; the library files the self link of the answer in the same map)
+	own := []string{}
+	for _, k := range sortedKeys(doc.Links) {
+		if k != "self" {
+			own = append(own, k+"="+doc.Links[k].HRef)
+		}
+	}
+	fmt.Fprintf(&b, "D:inc=%q;pre=%q;errs=%d;links=%q;meta=%d;", ids, doc.PrePath, len(doc.Errors), own, len(doc.Meta))
 	for _, t := range sortedKeys(doc.RelData) {
 		fmt.Fprintf(&b, "rd[%s]=%v;", t, sortedIDs(doc.RelData[t]))
 	}
@@ -1007,6 +1034,9 @@ func runDocCase(c dCase) dEvent {
 			}
 		}
 		ev.Det.FrameOK = snapshot(live, url)+snapshotDoc(doc) == before
+		if !ev.Det.FrameOK && os.Getenv("VERIF_DEBUG") != "" {
+			fmt.Fprintf(os.Stderr, "BEFORE %s\nAFTER  %s\n", before, snapshot(live, url)+snapshotDoc(doc))
+		}
 		// fresh builds of the same content, and of permuted content
 		rng := rand.New(rand.NewSource(c.Seed + 17))
 		for i := 0; i < 3; i++ {
@@ -1190,7 +1220,7 @@ func randDoc(rng *rand.Rand) dDoc {
 			d.Primary = append(d.Primary, randDocRes(rng, other, d.Primary[0].ID))
 		}
 	case "errors":
-		d.NErrors = 1 + rng.Intn(7)
+		d.NErrors = 1 + rng.Intn(9)
 		for i := rng.Intn(3); i > 0; i-- { // errors may come with data and included already set
 			d.Primary = append(d.Primary, randDocRes(rng, "t1", ids[i]))
 		}
@@ -1304,6 +1334,16 @@ func docMain(args []string) {
 			}
 			_, _ = catch(func() {
 				switch pc.Mode {
+				case "tie":
+					var tc tieCase
+					if json.Unmarshal(raw, &tc) == nil {
+						runTieCase(tc)
+					}
+				case "oddname":
+					var oc oddCase
+					if json.Unmarshal(raw, &oc) == nil {
+						runOddCase(oc)
+					}
 				case "dupname":
 					var dc dupCase
 					if json.Unmarshal(raw, &dc) == nil {
@@ -1315,6 +1355,22 @@ func docMain(args []string) {
 					runDocCase(pc)
 				}
 			})
+		}
+		if rf.Case.Mode == "tie" {
+			var tr struct {
+				Case tieCase `json:"case"`
+			}
+			must(json.Unmarshal(b, &tr))
+			os.Stdout.Write(jsonLine(runTieCase(tr.Case)))
+			return
+		}
+		if rf.Case.Mode == "oddname" {
+			var or struct {
+				Case oddCase `json:"case"`
+			}
+			must(json.Unmarshal(b, &or))
+			os.Stdout.Write(jsonLine(runOddCase(or.Case)))
+			return
 		}
 		if rf.Case.Mode == "dupname" {
 			var dr struct {
@@ -1460,6 +1516,14 @@ func docMain(args []string) {
 			d.Unenc = true
 			stt.class("primary-cannot-be-encoded")
 		}
+		if !d.Unenc && rng.Intn(8) == 0 {
+			d.Links = 1 + rng.Intn(2)
+			stt.class(fmt.Sprintf("own-links:%d", d.Links))
+		}
+		if (d.Kind == "one" || d.Kind == "many") && rng.Intn(8) == 0 {
+			v.OddRoute = true
+			stt.class("answered-under-another-route")
+		}
 		busyOneIn := 8
 		if *n > 10000 {
 			busyOneIn = 30 // (the long runs have many more cases: as many busy ones in absolute numbers, three times over)
@@ -1488,6 +1552,18 @@ func docMain(args []string) {
 		}
 		b, _ := json.Marshal(d)
 		stt.distinct(string(b))
+		w.Emit(ev, c)
+	}
+	for _, c := range tieCases() {
+		ev := runTieCase(c)
+		stt.Calls += 6
+		stt.class("tie:" + ev.Ret)
+		w.Emit(ev, c)
+	}
+	for _, c := range oddCases() {
+		ev := runOddCase(c)
+		stt.Calls += 9
+		stt.class("oddname:" + ev.Ret)
 		w.Emit(ev, c)
 	}
 	for _, c := range dupCases() {
